@@ -69,3 +69,5 @@ Definition scale_q := @scale_exec Qc QcOps.
 Definition laplacian_q := @laplacian_exec Qc QcOps.
 Definition klle_M_q (n k : nat) (nbl : list (list nat)) (wl : T) (shift : Qc) : T :=
   mtab n n (klle_M n k (fun x => nth x nbl []) (mof wl) shift).
+Definition diffusion_K1_q := @diffusion_K1_exec Qc QcOps.
+Definition diffusion_q := @diffusion_exec Qc QcOps.
